@@ -497,6 +497,52 @@ def _tailify(body: List[ast.stmt], ret: str) -> Optional[List[ast.stmt]]:
     return out
 
 
+def _const_like(e: ast.AST) -> bool:
+    """None / True / False / a literal / `Enum.MEMBER` / `Enum.MEMBER.value`."""
+    if isinstance(e, ast.Constant):
+        return True
+    if isinstance(e, ast.Attribute) and e.attr == 'value':
+        e = e.value
+    return isinstance(e, ast.Attribute) and isinstance(e.value, ast.Name) and e.attr.isupper() and e.value.id[:1].isupper()
+
+
+def _thread_result(name: str, stmts: List[ast.stmt], rest: List[ast.stmt]) -> Optional[List[ast.stmt]]:
+    """`stmts` end in an if-tree every leaf of which either binds `name` to a constant-like value as its last statement or
+    does not fall through (raise / return); `rest` begins by testing `name`.  Result: `stmts` with a copy of `rest` appended to
+    every leaf that binds `name`, in which `name` is replaced by that leaf's value and the tests this decides are folded
+    (jump threading).  None if the shape is different, `rest` rebinds `name`, or there are too many leaves."""
+    if not stmts or not rest or not isinstance(stmts[-1], ast.If):
+        return None
+    first = rest[0]
+    if not (isinstance(first, ast.If) and any(isinstance(x, ast.Name) and x.id == name for x in ast.walk(first.test))):
+        return None
+    if any(isinstance(x, ast.Name) and x.id == name and isinstance(x.ctx, (ast.Store, ast.Del)) for st in rest for x in ast.walk(st)):
+        return None
+    if any(isinstance(x, (ast.FunctionDef, ast.AsyncFunctionDef, ast.ClassDef, ast.Lambda)) for st in rest for x in ast.walk(st)):
+        return None
+    leaves = []
+
+    def visit(block: List[ast.stmt]) -> bool:
+        if not block:
+            return False
+        last = block[-1]
+        if isinstance(last, (ast.Raise, ast.Return)):
+            return True
+        if isinstance(last, ast.Assign) and len(last.targets) == 1 and isinstance(last.targets[0], ast.Name) and last.targets[0].id == name and _const_like(last.value):
+            leaves.append((block, last.value))
+            return True
+        if isinstance(last, ast.If) and last.orelse:
+            return visit(last.body) and visit(last.orelse)
+        return False
+
+    if not visit([stmts[-1]]) or not leaves or len(leaves) > 12:
+        return None
+    for (block, val) in leaves:
+        cp = [_SubstExpr({name: val}).visit(copy.deepcopy(st)) for st in rest]
+        block.extend(_fold_constant_ifs([ast.fix_missing_locations(x) for x in cp]))
+    return stmts
+
+
 def _is_simple_contextmanager(m: ast.FunctionDef, function: bool = False) -> bool:
     """A method decorated with contextlib.contextmanager whose body yields exactly once, as a statement of its own, and
     has no return / nested definitions: `with m(...): BODY` then runs the method's body with BODY in place of the yield."""
@@ -539,6 +585,19 @@ def _const_truth(t: ast.AST) -> Optional[bool]:
             same = l.value is r.value
         if same is not None:
             return same if isinstance(t.ops[0], ast.Is) else (not same)
+    if isinstance(t, ast.Compare) and len(t.ops) == 1 and isinstance(t.ops[0], (ast.Eq, ast.NotEq, ast.Is, ast.IsNot)):
+        l, r = t.left, t.comparators[0]
+        enum_ref = lambda e: isinstance(e, ast.Attribute) and (e.attr == 'value' and isinstance(e.value, ast.Attribute) and isinstance(e.value.value, ast.Name) and e.value.attr.isupper()
+                                                               or (isinstance(e.value, ast.Name) and e.attr.isupper() and e.value.id[:1].isupper()))
+        same = None
+        if enum_ref(l) and enum_ref(r):
+            tl, tr_ = ast.unparse(l), ast.unparse(r)
+            if tl.rsplit('.', 2)[0] == tr_.rsplit('.', 2)[0] or tl == tr_:
+                same = tl == tr_        # distinct members of one enumeration have distinct values (C06.R1 checks the alphabet)
+        elif (enum_ref(l) and isinstance(r, ast.Constant) and r.value is None) or (enum_ref(r) and isinstance(l, ast.Constant) and l.value is None):
+            same = False
+        if same is not None:
+            return same if isinstance(t.ops[0], (ast.Eq, ast.Is)) else (not same)
     if isinstance(t, ast.UnaryOp) and isinstance(t.op, ast.Not):
         v = _const_truth(t.operand)
         return None if v is None else (not v)
@@ -559,7 +618,7 @@ def _fold_constant_ifs(body: List[ast.stmt]) -> List[ast.stmt]:
             if v is not None:
                 live = _fold_constant_ifs(s.body if v else s.orelse)
                 out += live
-                if live and isinstance(live[-1], (ast.Raise, ast.Return)):
+                if live and isinstance(live[-1], (ast.Raise, ast.Return, ast.Continue, ast.Break)):
                     break
                 continue
         for fld in ('body', 'orelse', 'finalbody'):
@@ -572,7 +631,7 @@ def _fold_constant_ifs(body: List[ast.stmt]) -> List[ast.stmt]:
                 hd.body = _fold_constant_ifs(hd.body) or [ast.Pass()]
         out.append(s)
         # nothing after an unconditional raise / return in this block is live
-        if isinstance(s, (ast.Raise, ast.Return)):
+        if isinstance(s, (ast.Raise, ast.Return, ast.Continue, ast.Break)):
             break
     return out
 
@@ -722,7 +781,9 @@ def _inline_methods_in_class(c: Optional[ast.ClassDef], extra: Optional[Dict[str
     def rewrite(body, host):
         nonlocal count
         out = []
-        for s in body:
+        for i_s, s in enumerate(body):
+            if getattr(rewrite, 'consumed', None) is body:
+                break       # the rest of this block was moved into the branches of a threaded helper result
             h = None
             if isinstance(s, ast.Assign) and len(s.targets) == 1:
                 h = call_of(s.value)
@@ -786,7 +847,16 @@ def _inline_methods_in_class(c: Optional[ast.ClassDef], extra: Optional[Dict[str
                         used = any(isinstance(x, ast.Name) and x.id == tname for st_ in stmts for x in ast.walk(st_))
                         if not used:
                             stmts2 = [_Rename({rv.id: tname}).visit(st_) for st_ in stmts]
-                            out[len(out) - len(stmts):] = [ast.fix_missing_locations(x) for x in stmts2]
+                            stmts2 = [ast.fix_missing_locations(x) for x in stmts2]
+                            # the helper answered with one of a few constants (None, an enum value, a flag) and what follows
+                            # dispatches on the answer: give each exit its own copy of what follows, with the answer known
+                            th = _thread_result(tname, stmts2, list(body[i_s + 1:]))
+                            if th is not None:
+                                out[len(out) - len(stmts):] = rewrite(th, host)
+                                rewrite.consumed = body
+                                count += 1
+                                continue
+                            out[len(out) - len(stmts):] = stmts2
                             count += 1
                             continue
                     if isinstance(s, ast.Assign) and len(s.targets) == 1 and isinstance(s.targets[0], ast.Tuple) and isinstance(rv, ast.Name) and rv.id.startswith(f'{h.name}__') \
@@ -903,6 +973,31 @@ def inline_unknown_functions(tree: ast.Module, known_functions: Set[str], known_
             new_m = {k for k in new_m if not (k.startswith('__') and k.endswith('__'))}
             if new_m:
                 total += _inline_methods_in_class(c, any_name=new_m, keep=tuple(m.name for m in c.body if isinstance(m, ast.FunctionDef) and m.name not in new_m))
+    return total
+
+
+KNOWN_NESTED = {'get_check_values', 'strip_comments', 'process_term_match', 'replace_type', 'escape_braces', 'default_converter', 'resolve_strings', 'resolve_by_type_pair',
+                'resolve_index_in_span', 'resolve_indexes', 'create_integer_array_definition', 'convert_to_int_or_none', 'convert', 'as_list'}
+
+
+def inline_unknown_nested(tree: ast.Module) -> int:
+    """Value-returning helpers nested in a function, other than those of the pinned tree (KNOWN_NESTED, which rules anchor
+    on), are read in place of their calls in that function.  (Nested *procedures* are handled by inline_local_procedures.)
+    A nested helper sees the enclosing locals as they are at the call, which is exactly what reading it in place does."""
+    total = 0
+    for f in [n for n in ast.walk(tree) if isinstance(n, ast.FunctionDef)]:
+        nested = {s_.name: s_ for s_ in f.body if isinstance(s_, ast.FunctionDef) and s_.name not in KNOWN_NESTED
+                  and any(isinstance(x, ast.Return) and x.value is not None for x in ast.walk(s_))}
+        if not nested:
+            continue
+        # the name must be used only as a callee, by bare name, in this function
+        for k in list(nested):
+            uses = [x for x in ast.walk(f) if isinstance(x, ast.Name) and x.id == k]
+            callees = {id(c.func) for c in ast.walk(f) if isinstance(c, ast.Call) and isinstance(c.func, ast.Name) and c.func.id == k}
+            if any(id(u) not in callees for u in uses) or any(isinstance(x, (ast.Nonlocal, ast.Global)) for x in ast.walk(nested[k])):
+                nested.pop(k)
+        if nested:
+            total += _inline_methods_in_class(None, funcs=nested, owners=[f])
     return total
 
 
